@@ -329,7 +329,7 @@ func minimise(t *testing.T, rf *ReplayFile, execute func(*RunSpec) (*RunReport, 
 		return
 	}
 	out := ReplayFile{Property: "C20", Spec: res, Violation: *hit, All: rep.Violations, Ref: oc.Ref, Sim: oc.Sim, Trace: oc.Trace, Minimised: true,
-		Note: fmt.Sprintf("minimised from %s to %s in %d executions", before, specSize(res), m.execs), ResultHash: rep.ResultHash}
+		Note: fmt.Sprintf("minimised from %s to %s in %d executions", before, specSize(res), m.execs), ResultHash: rep.ResultHash, GoMaxProcs: rf.GoMaxProcs}
 	if rep.Stats != nil {
 		out.TraceHash = rep.Stats.TraceHash
 	}
